@@ -141,3 +141,52 @@ def fd_adjoint_value_rules(run, db):
                       '%s: <D x, y> - <x, backprop(y)> = %s, not 0: the companion is not the transpose of the forward difference' % (label, (lhs - rhs).key()[:200]), fb.loc())
             n_ok += ok
     return n_ok
+
+
+def dm_resize_value_rules(run, db):
+    """DM.render / DM.render_backprop as an adjoint pair on values, with the filtering stage replaced by the identity (self-adjoint), no
+    rotation, no resampling: what is left is the scale and the resize to Nout / back to Nintermediate.  <render(a), y> == <a, backprop(y)>
+    in symbolic real samples for intermediate -> Nout of 3x3 -> 4x4, 4x4 -> 3x3, 2x3 -> 4x5, 4x5 -> 2x3, 3x3 -> 3x3, 2x2 -> 5x5"""
+    D = 'prysm.x.dm.DM.'
+    ci = db.cls('prysm.x.dm.DM')
+    ff, fb = db.func(D + 'render'), db.func(D + 'render_backprop')
+    n_ok = 0
+    for nin, nout in (((3, 3), (4, 4)), ((4, 4), (3, 3)), ((2, 3), (4, 5)), ((4, 5), (2, 3)), ((3, 3), (3, 3)), ((2, 2), (5, 5))):
+        it, dom = file_interp(db)
+        dom.positive = {'obliquity'}
+        dom.nonzero = {'obliquity'}
+        label = 'DM.render / render_backprop (identity filter, no rotation, no resampling), %dx%d actuators -> Nout %dx%d' % (nin + nout)
+        stubbed = []
+
+        def call_prysm(fi, args, kwargs, node, stubbed=stubbed):
+            if fi.name == 'apply_transfer_functions':
+                a = args[0]
+                if not isinstance(a, FArr):
+                    raise AnalysisError('%s: the array handed to the filtering stage is not followed' % label)
+                stubbed.append(fi.name)
+                return FArr.of(a.shape, a.values(), a.dtype)
+            return None
+        dom.call_prysm = call_prysm
+
+        def arr(tag, shape):
+            return FArr.of(shape, [dom.sym('%s%d%d' % (tag, i, j)) for i in range(shape[0]) for j in range(shape[1])], DType('f', 8))
+
+        def idx(shape, axis):
+            return FArr.of(shape, [Const((i, j)[axis]) for i in range(shape[0]) for j in range(shape[1])], DType('i', 8))
+        o = Obj(ci)
+        o.attrs.update({'poke_arr': FArr.of(nin, [Const(0.0)] * (nin[0] * nin[1]), DType('f', 8)), 'iyy': idx(nin, 0), 'ixx': idx(nin, 1), 'actuators': arr('a', nin),
+                        'tf': Tup([], 'list'), 'needs_rot': Const(False), 'obliquity': dom.sym('obliquity'), 'upsample': Const(1), 'Nout': Tup([Const(nout[0]), Const(nout[1])]),
+                        'Nact': Tup([Const(nin[0]), Const(nin[1])])})
+        Ra = _run1(it, ff, label, self_obj=lambda: o, wfe=Const(True))
+        Rty = _run1(it, fb, label, self_obj=lambda: o, protograd=arr('y', nout), wfe=Const(True))
+        if len(stubbed) != 2:
+            raise AnalysisError('%s: the filtering stage was reached %d times, not once in each direction' % (label, len(stubbed)))
+        if tuple(Ra.shape) != nout or tuple(Rty.shape) != nin:
+            run.check(False, 'C06.dm', fb.qual, 'resize adjoint on values', '', '%s: render gives shape %s (Nout is %s), render_backprop gives %s (the actuators are %s)' % (label, tuple(Ra.shape), nout, tuple(Rty.shape), nin), fb.loc())
+            continue
+        lhs, rhs = _inner(dom, Ra, arr('y', nout)), _inner(dom, arr('a', nin), Rty)
+        ok = lhs == rhs
+        run.check(ok, 'C06.dm', fb.qual, 'resize adjoint on values', '%s: <render(a), y> == <a, render_backprop(y)> as an identity in the samples' % label,
+                  '%s: <render(a), y> - <a, render_backprop(y)> = %s, not 0: the resize (pad / crop) of the companion is not the transpose of the forward one' % (label, (lhs - rhs).key()[:200]), fb.loc())
+        n_ok += ok
+    return n_ok
